@@ -105,7 +105,7 @@ theorem Inv.wLinkT {s : State} (hI : Inv s) {h f v n ver : Nat} (hp : s.pc (.fr 
   have hnh : (s.node n).h = h := by rw [hfn]
   have hnf : (s.node n).fut = f := by rw [hfn]
   obtain ⟨kindC, kindF, lockOk, frWait, freshOk, freshUniq, freshVer, freshVerT, freshNode, wFreeTaken, preOk, postOk, ownOk, rsmTaken,
-    freeTaken, pubNode, waiting, parked, listOk, scanOk, prevOk, placed, oScanOk, oNoneOk, aUnlockOk, aNextOk, aResumeOk, aFreeOk,
+    freeTaken, pubNode, waiting, parked, listOk, scanOk, prevOk, placed, freshHolder, scanL0, unlockL0, oScanOk, oNoneOk, aUnlockOk, aNextOk, aResumeOk, aFreeOk,
     noRead, cTakeOk, cRemoveOk, allocUsed, noBad⟩ := hI
   have hmem : ∀ g m, MemOk s g m → m ≠ n →
       MemOk (({ s.linkFront f n with lock := upd (s.linkFront f n).lock f none }).setPc (.fr h) .idle) g m := by
@@ -115,14 +115,14 @@ theorem Inv.wLinkT {s : State} (hI : Inv s) {h f v n ver : Nat} (hp : s.pc (.fr 
     have := linkNodes_rest s.node f n (s.hnext f) m
     grind [updA, upd]
   constructor
-  case kindC => first | (lk_auto; done) | (trace "FAIL kindC"; sorry)
-  case kindF => first | (lk_auto; done) | (trace "FAIL kindF"; sorry)
-  case lockOk => first | (lk_auto; done) | (trace "FAIL lockOk"; sorry)
-  case frWait => first | (lk_auto; done) | (trace "FAIL frWait"; sorry)
-  case freshOk => first | (lk_auto; done) | (trace "FAIL freshOk"; sorry)
-  case freshUniq => first | (lk_auto; done) | (trace "FAIL freshUniq"; sorry)
-  case freshVer => first | (lk_auto; done) | (trace "FAIL freshVer"; sorry)
-  case freshVerT => first | (lk_auto; done) | (trace "FAIL freshVerT"; sorry)
+  case kindC => lk_auto
+  case kindF => lk_auto
+  case lockOk => lk_auto
+  case frWait => lk_auto
+  case freshOk => lk_auto
+  case freshUniq => lk_auto
+  case freshVer => lk_auto
+  case freshVerT => lk_auto
   case freshNode =>
     intro h' f' v' n' ver' hh
     have hne : h' ≠ h := by
@@ -140,15 +140,15 @@ theorem Inv.wLinkT {s : State} (hI : Inv s) {h f v n ver : Nat} (hp : s.pc (.fr 
     lk_simp
     rw [linkNodes_other _ _ _ _ _ hn'n hn'x]
     exact hold
-  case wFreeTaken => first | (lk_auto; done) | (trace "FAIL wFreeTaken"; sorry)
-  case preOk => first | (lk_auto; done) | (trace "FAIL preOk"; sorry)
-  case postOk => first | (lk_auto; done) | (trace "FAIL postOk"; sorry)
-  case ownOk => first | (lk_auto; done) | (trace "FAIL ownOk"; sorry)
-  case rsmTaken => first | (lk_auto; done) | (trace "FAIL rsmTaken"; sorry)
-  case freeTaken => first | (lk_auto; done) | (trace "FAIL freeTaken"; sorry)
-  case pubNode => first | (lk_auto; done) | (trace "FAIL pubNode"; sorry)
-  case waiting => first | (lk_auto; done) | (trace "FAIL waiting"; sorry)
-  case parked => first | (lk_auto; done) | (trace "FAIL parked"; sorry)
+  case wFreeTaken => lk_auto
+  case preOk => lk_auto
+  case postOk => lk_auto
+  case ownOk => lk_auto
+  case rsmTaken => lk_auto
+  case freeTaken => lk_auto
+  case pubNode => lk_auto
+  case waiting => lk_auto
+  case parked => lk_auto
   case listOk =>
     intro g
     obtain ⟨c1, c2, c3⟩ := listOk g
@@ -230,9 +230,12 @@ theorem Inv.wLinkT {s : State} (hI : Inv s) {h f v n ver : Nat} (hp : s.pc (.fr 
         lk_simp
         simp only [hpv, hr.1, hmn, hmx, if_false]
         grind [updA, upd, Pc.pend, Pc.locks]
-  case placed => first | (lk_auto; done) | (trace "FAIL placed"; sorry)
-  case oScanOk => first | (lk_auto; done) | (trace "FAIL oScanOk"; sorry)
-  case oNoneOk => first | (lk_auto; done) | (trace "FAIL oNoneOk"; sorry)
+  case placed => lk_auto
+  case freshHolder => lk_auto
+  case scanL0 => lk_auto
+  case unlockL0 => lk_auto
+  case oScanOk => lk_auto
+  case oNoneOk => lk_auto
   case aUnlockOk =>
     intro b g hd took skip l0 hb
     have hb' : s.pc b = .aUnlock g hd took skip l0 := by revert hb; lk_simp; grind [updA]
@@ -265,10 +268,10 @@ theorem Inv.wLinkT {s : State} (hI : Inv s) {h f v n ver : Nat} (hp : s.pc (.fr 
     have hnt' : n ∉ took.drop (k + 1) := fun e => hnpre b (by simp [hb', Pc.pre, h1, e])
     lk_simp
     exact ⟨h1, h2, NChain.linkNodes hnt' h3, h4, h5⟩
-  case noRead => first | (lk_auto; done) | (trace "FAIL noRead"; sorry)
-  case cTakeOk => first | (lk_auto; done) | (trace "FAIL cTakeOk"; sorry)
-  case cRemoveOk => first | (lk_auto; done) | (trace "FAIL cRemoveOk"; sorry)
-  case allocUsed => first | (lk_auto; done) | (trace "FAIL allocUsed"; sorry)
-  case noBad => first | (lk_auto; done) | (trace "FAIL noBad"; sorry)
+  case noRead => lk_auto
+  case cTakeOk => lk_auto
+  case cRemoveOk => lk_auto
+  case allocUsed => lk_auto
+  case noBad => lk_auto
 
 end Babylon.Coro
